@@ -43,8 +43,12 @@ Check(it) ==
     LET cs  == NormCalls(it.calls)
         l1  == IF WellFormed(it.kd, cs, it.st) THEN Failing(it.kd, cs, it.st) ELSE {"Malformed"}
         exp == Replay(it.kd, [calls |-> <<>>, status |-> Running], cs)
+        \* which of several non-retryable items is named depends on their order in the response: any of them is accepted
+        namedOk == IF exp.status.msg = "bulk-unretryable" /\ cs # <<>>
+                   THEN it.st.named \in BadItems(cs[Len(cs)].o) ELSE it.st.named = exp.status.named
         l2  == /\ exp.calls = cs
-               /\ exp.status = it.st
+               /\ [exp.status EXCEPT !.named = 0] = [it.st EXCEPT !.named = 0]
+               /\ namedOk
     IN /\ IF l1 = {} THEN TRUE ELSE PrintT(<<"V", it.id, 1, "L1", l1>>)
        /\ IF l1 # {} \/ l2 THEN TRUE ELSE PrintT(<<"V", it.id, 1, "L2", {}>>)
 
